@@ -62,10 +62,10 @@ pub enum OpenFault {
 /// Faults the world planned for the operations to come.
 #[derive(Clone, Debug, Default)]
 pub struct Plan {
-    /// the process dies instead of performing the next truncating open
+    /// the process dies instead of performing the next open for writing
     pub crash_before_open: bool,
-    /// the process dies once this many bytes were accepted after the next
-    /// truncating open (0 = right after the open; may cut inside one write)
+    /// the process dies once this many bytes were accepted after the next open
+    /// for writing (0 = right after the open; may cut inside one write)
     pub crash_after_bytes: Option<u64>,
     pub write_script: Vec<WriteStep>,
     pub read_script: Vec<ReadStep>,
@@ -476,7 +476,7 @@ impl OpenOptions {
             if i.frozen {
                 return Err(disk.zombie(&mut i, "open-write"));
             }
-            if self.write && self.truncate && i.plan.crash_before_open {
+            if self.write && i.plan.crash_before_open {
                 i.plan.crash_before_open = false;
                 i.frozen = true;
                 i.ops.push(Op::Crash { file: name.clone(), bytes_after_open: 0 });
@@ -501,8 +501,10 @@ impl OpenOptions {
                 // (default 0o666 as std does; umask is not modelled)
                 i.files.insert(name.clone(), SimFile { data: vec![], mode: self.mode.unwrap_or(0o666) });
             }
-            if self.write && self.truncate {
-                i.files.get_mut(&name).unwrap().data.clear();
+            if self.write {
+                if self.truncate {
+                    i.files.get_mut(&name).unwrap().data.clear();
+                }
                 i.bytes_after_open = 0;
                 i.crash_countdown = i.plan.crash_after_bytes.take();
             }
